@@ -248,15 +248,20 @@ for (n, cost, mem, q, fam, hist) in [
         ("fgroup_std_remove", 280, 9, 0, "C11", "insert, insert, poll (member 0 pending), remove(0), poll"),
         ("fgroup_std_grow_live", 600, 34, 0, "C11", "insert, poll (pending), insert (capacity grows), poll"),
         ("fgroup_std_rsv_live", 400, 26, 0, "C11", "insert, poll (pending), reserve(1), poll"),
-        ("fgroup_std_reuse_after_remove", 300, 12, 0, "C11", "insert, poll (pending, not woken), remove, insert (slot reused), poll"),
-        ("sgroup_std_reuse_after_remove", 300, 12, 0, "C12", "insert, poll (pending, not woken), remove, insert (slot reused), poll"),
-        ("sgroup_std_micro3", 80, 5, 1, "C12", "insert, poll, poll"),
+        ("fgroup_std_reuse_after_remove", 30, 3, 1, "C11", "insert, poll (pending, not woken), remove, insert (slot reused), poll"),
+        ("sgroup_std_reuse_after_remove", 40, 4, 1, "C12", "insert, poll (pending, not woken), remove, insert (slot reused), poll"),
+        ("fgroup_std_selfwake_p", 25, 3, 1, "C11", "insert, poll (pending; may wake itself from inside the poll), poll"),
+        ("fgroup_std_keyed_selfwake_p", 25, 3, 0, "C11", "keyed: same"),
+        ("fgroup_std_two_wakes_pp", 60, 4, 1, "C11", "insert, insert, poll (both pending; self and sibling wakes from inside polls), poll"),
+        ("sgroup_std_selfwake_p", 30, 3, 1, "C12", "insert, poll (pending; may wake itself from inside the poll), poll"),
+        ("sgroup_std_two_wakes_pp", 400, 12, 0, "C12", "insert, insert, poll (both pending; self and sibling wakes from inside polls), poll"),
+        ("sgroup_std_pending_then_any", 35, 3, 1, "C12", "insert, poll (pending), poll"),
         ("sgroup_std_item_then_any", 61, 4, 1, "C12", "insert, poll (item), poll"),
         ("sgroup_std_two", 900, 36, 0, "C12", "insert, insert, poll, poll"),
         ("sgroup_std_grow_live", 600, 34, 0, "C12", "insert, poll (pending), insert (capacity grows), poll")]:
     props = ["C01", "C16", fam, "C03", "C20"]
     add(GS_ + n, "std", "C16", quick=props if q else [], thorough=props, cost=cost, mem_gb=mem, timeout=3000, history=hist,
-        member_behaviour="symbolic results; wake-ups between operations only (fire phase), none from inside polls")
+        member_behaviour="symbolic results where not scripted; wake-ups between operations (fire phase); from inside polls only in the *wake* histories")
 
 # nests of combinators (leaves are the scripted children; family oracles are stated over leaves)
 NE = "nest::"
